@@ -134,6 +134,16 @@ def stepPure (e : PEnv) (w : List String) : Option String :=
       else
         some s!"ser={out (serializeWitness wi) showBytes} pv={out (proofValuesFromWitness e.H wi) showPv}"
     | _, _, _, _, _, _, _ => none
+  | ["calcwit", s, lim, mid, path, idx, x, ext] =>
+    match parseHexNat s, parseHexNat lim, parseHexNat mid, parseList path, parseHexBytes idx, parseHexNat x, parseHexNat ext with
+    | some s, some lim, some mid, some path, some idx, some x, some ext =>
+      let wi : Witness := { identitySecret := s % P, userMessageLimit := lim % P, messageId := mid % P, pathElements := path.map (· % P),
+                            identityPathIndex := idx, x := x % P, externalNullifier := ext % P }
+      if wi.messageId ≥ wi.userMessageLimit then some "err" else
+      -- positions 0..5 of the circuit's witness: the constant 1, the outputs y, root, nullifier, the public inputs x, externalNullifier
+      let v := specProofValues e.H wi
+      some (showFrs [1, v.y, v.root, v.nullifier, v.x, v.externalNullifier])
+    | _, _, _, _, _, _, _ => none
   | ["de_witness", b] => (parseHexBytes b).map (fun b =>
       if e.spec then (match Spec.decWitness b with | some wi => s!"ok {showWitness wi} read={b.length}" | none => "err")
       else out (deserializeWitness b) (fun r => s!"ok {showWitness r.1} read={r.2}"))
